@@ -181,6 +181,11 @@ Step(kind, w, o, w2, r) ==
   \* C16 for every block, not only the one the call was made on (an item can arrive through a
   \* container that two blocks share)
   \cup If(kind \in LengthKinds /\ \E p \in DOMAIN w2 : w2[p].ex /\ ~w2[p].lenok, "C16:wrong_length_item_present")
+  \* ... and C15 / C02 likewise: item list and channel list of EVERY block have the same length,
+  \* channels are unique, the declared size is the encoded size
+  \cup If(\E p \in DOMAIN w2 : w2[p].ex /\ (~Aligned(kind, w2[p]) \/ (kind \in ChanKinds /\ ~w2[p].szok)), "C15:misaligned")
+  \cup If(kind \in ChanKinds /\ \E p \in DOMAIN w2 : w2[p].ex /\ ~Unique(w2[p]), "C15:duplicate_channel")
+  \cup If(\E p \in DOMAIN w2 : w2[p].ex /\ ~w2[p].szok, "C02:declared_size_after_edits")
   \cup If(o.op \in {"lookup", "encode"} /\ w2 # w, IF o.op = "lookup" THEN "C18:lookup_changed_block" ELSE "C20:encode_changed_block")
   \cup (IF o.op = "decode" THEN StateClauses(kind, NoInst, w2[o.j]) ELSE StateClauses(kind, a, b))
   \cup (CASE o.op = "construct" ->
